@@ -212,9 +212,10 @@ theorem scanEnts_tuples {cfg : Cfg} {t : Tree} {fuel : Nat} {p : List UInt8} {L 
         apply Xe_nil_of
         intro kv hkv
         have : inRight rk re kv.1 = false := by
-          rcases List.mem_cons.mp (by simpa using hx) with e0 | hx'
+          rw [List.cons_append] at hx
+          rcases List.mem_cons.mp hx with e0 | hx'
           · subst e0; exact h1 kv hkv
-          · exact h2 x (by simpa using hx') kv hkv
+          · exact h2 x hx' kv hkv
         simp [Jf, this]
       rw [this, List.append_nil, lim_of_not_full hpre]
     cases hval : e.val with
@@ -244,7 +245,7 @@ theorem scanEnts_tuples {cfg : Cfg} {t : Tree} {fuel : Nat} {p : List UInt8} {L 
           cases hfull : full max (acc.tuples ++ [(p ++ e.kt.bytes, v)]).length with
           | true =>
             simp only [if_true]
-            refine ⟨fun h => by cases h, fun _ => ?_⟩
+            refine ⟨fun h => (by cases h), fun _ => ?_⟩
             rw [List.cons_append, List.flatMap_cons, hX]
             exact lim_snoc_full _ _ hpre hfull
           | false =>
@@ -255,7 +256,7 @@ theorem scanEnts_tuples {cfg : Cfg} {t : Tree} {fuel : Nat} {p : List UInt8} {L 
             exact this
         | false =>
           simp only [Bool.false_eq_true, if_false]
-          refine ⟨fun h => by cases h, fun _ => ?_⟩
+          refine ⟨fun h => (by cases h), fun _ => ?_⟩
           have ht : (if pushed = true then acc else { acc with nodes := acc.nodes ++ [mkRef L i] }).tuples = acc.tuples := by
             split <;> rfl
           rw [ht]
@@ -288,7 +289,7 @@ theorem scanEnts_tuples {cfg : Cfg} {t : Tree} {fuel : Nat} {p : List UInt8} {L 
         exact this
       | stop =>
         simp only
-        refine ⟨fun h => by cases h, fun _ => ?_⟩
+        refine ⟨fun h => (by cases h), fun _ => ?_⟩
         rw [recFix_tuples]
         obtain ⟨hre, hF⟩ := linkArgs_stop hla
         apply allnil
@@ -332,7 +333,7 @@ theorem scanEnts_tuples {cfg : Cfg} {t : Tree} {fuel : Nat} {p : List UInt8} {L 
           cases hfull : full max (scanLayer cfg t f (p ++ e.kt.slice) alk ale ark are max false acc).1.tuples.length with
           | true =>
             simp only [if_true]
-            refine ⟨fun h => by cases h, fun _ => ?_⟩
+            refine ⟨fun h => (by cases h), fun _ => ?_⟩
             rw [recFix_tuples, hS, List.cons_append, List.flatMap_cons, ← List.append_assoc]
             apply lim_extend
             rw [← hS]; exact hfull
@@ -347,5 +348,277 @@ theorem scanEnts_tuples {cfg : Cfg} {t : Tree} {fuel : Nat} {p : List UInt8} {L 
             rw [List.flatMap_cons, List.cons_append, List.flatMap_cons]
             simp only [List.append_assoc] at this ⊢
             exact this
+
+theorem layerEnts_cons (l : Leaf) (ls : List Leaf) : layerEnts (l :: ls) = l.ents ++ layerEnts ls := by
+  simp [layerEnts]
+
+theorem layerEnts_append (a b : List Leaf) : layerEnts (a ++ b) = layerEnts a ++ layerEnts b := by
+  simp [layerEnts]
+
+theorem scanLeaves_tuples {cfg : Cfg} {t : Tree} {fuel : Nat} {p : List UInt8} {L : Layer} (c : LCtx t fuel p L)
+    {max : Nat} (IH : SubOK cfg t fuel p max) (lk : Key) (le : EP) (rk : Key) (re : EP) :
+    ∀ (rest : List Leaf) (i : Nat) (acc : Acc), (∃ pre, L.leaves = pre ++ rest) →
+      full max acc.tuples.length = false →
+      (scanLeaves cfg t fuel L i rest lk le rk re max false acc).1.tuples =
+        lim max (acc.tuples ++ (layerEnts rest).flatMap (Xe t fuel p lk le rk re)) := by
+  intro rest
+  induction rest with
+  | nil =>
+    intro i acc _ hpre
+    rw [scanLeaves_nil]
+    simp only [layerEnts, List.flatMap_nil, List.append_nil]
+    exact (lim_of_not_full hpre).symm
+  | cons leaf more ih =>
+    intro i acc hpre' hpre
+    obtain ⟨pre, hpre'⟩ := hpre'
+    have hsub : ∀ e ∈ leaf.ents ++ layerEnts more, e ∈ layerEnts L.leaves := by
+      intro e he
+      rw [hpre', layerEnts_append, layerEnts_cons]
+      exact List.mem_append_right _ he
+    have hsorted : (leaf.ents ++ layerEnts more).Pairwise (fun a b => KT.ltSpec a.kt b.kt = true) := by
+      have := layerEnts_sorted c.core
+      rw [hpre', layerEnts_append, layerEnts_cons, List.pairwise_append] at this
+      exact this.2.1
+    have hE := scanEnts_tuples c IH i lk le rk re leaf.ents (layerEnts more) acc false hsub hsorted hpre
+    rw [scanLeaves_cons]
+    simp only [Bool.false_eq_true, if_false]
+    rcases hres : scanEnts cfg t fuel L i leaf.ents lk le rk re max false acc false with ⟨acc1, pushed, flow⟩
+    rw [hres] at hE
+    cases flow with
+    | stop =>
+      simp only
+      rw [layerEnts_cons]
+      exact hE.2 rfl
+    | cont =>
+      simp only
+      obtain ⟨h1, h2⟩ := hE.1 rfl
+      simp only at h1 h2
+      have ht : (if pushed = true then acc1 else { acc1 with nodes := acc1.nodes ++ [mkRef L i] }).tuples =
+          acc1.tuples := by split <;> rfl
+      cases more with
+      | nil =>
+        simp only [List.isEmpty_nil, if_true]
+        rw [ht, h1, layerEnts_cons]
+        simp only [layerEnts, List.flatMap_nil, List.append_nil]
+        apply (lim_of_not_full _).symm
+        rw [← h1]; exact h2
+      | cons m ms =>
+        simp only [List.isEmpty_cons, Bool.false_eq_true, if_false]
+        rw [ih (i + 1) _ ⟨pre ++ [leaf], by rw [hpre']; simp⟩ (by rw [ht]; exact h2), ht, h1,
+          layerEnts_cons leaf, List.flatMap_append, List.append_assoc]
+
+/-- entries of the leaves left of the start leaf are all before the left end -/
+theorem start_skips {t : Tree} {fuel : Nat} {p : List UInt8} {L : Layer} (c : LCtx t fuel p L)
+    (lk : Key) (le : EP) (rk : Key) (re : EP) (hle : le = .inf → lk = []) :
+    ∀ e ∈ layerEnts (L.leaves.take (route (descentKT lk false) L.leaves)), Xe t fuel p lk le rk re e = [] := by
+  by_cases hinf : le = .inf
+  · rw [hle hinf, route_nil_key c.core.1]
+    intro e he
+    simp [layerEnts] at he
+  · intro e he
+    have hc := c.core
+    cases hlv : L.leaves with
+    | nil => rw [hlv] at hc; cases hc.1
+    | cons c0 ls =>
+      rw [hlv] at he hc
+      obtain ⟨pre, leaf, post, h1, h2, _, h4, _⟩ := routeFrom_decomp (descentKT lk false) ls c0
+      have hr : route (descentKT lk false) (c0 :: ls) = pre.length := h2.symm
+      rw [hr, h1, List.take_left' rfl] at he
+      obtain ⟨a, ha, hea⟩ := mem_layerEnts.mp he
+      have hpne : pre ≠ [] := by intro e0; subst e0; cases ha
+      rw [h1] at hc
+      obtain ⟨f, hf, hfw, _⟩ := hc.mid_fence hpne
+      have hrl : routeLeft (descentKT lk false) f = false := by
+        apply h4 leaf _ f hf
+        cases pre with
+        | nil => exact absurd rfl hpne
+        | cons x xs => simp
+      have hlo := descent_left hfw hrl
+      have hlt : KT.ltSpec e.kt f = true := (hc.pre_before a ha f hf).2 e hea
+      have hein : e ∈ layerEnts L.leaves := by
+        rw [hlv, h1, layerEnts_append]; exact List.mem_append_left _ he
+      have hw := (layerEnts_wf c.core hein).1
+      have hlt2 : KT.ltSpec e.kt (KT.ofKey lk) = true := lt_le_trans hw (KT.ofKey_wf lk) hlt hlo
+      obtain ⟨g1, g2⟩ := keys_lt_of_ltSpec_ofKey hw hlt2
+      apply Xe_nil_of
+      intro kv hkv
+      obtain ⟨r', _, hd, h3⟩ := c.keys hein hkv
+      have : inLeft lk le (kv.1.drop p.length) = false := by
+        rw [hd]
+        apply inLeft_false_of_lt hinf
+        rcases h3 with ⟨h8, rfl⟩ | ⟨h9, hb, _, _⟩
+        · rw [List.append_nil]; exact g1 h8
+        · rw [hb]; exact g2 h9 r'
+      simp [Jf, this]
+
+theorem scanLayer_tuples {cfg : Cfg} {t : Tree} (hF : FCore (lay t)) {max : Nat} :
+    ∀ (fuel : Nat) (p : List UInt8) (lk : Key) (le : EP) (rk : Key) (re : EP) (acc : Acc),
+      (lay t p).isSome → t.length ≤ fuel + p.length / 8 → (le = .inf → lk = []) →
+      full max acc.tuples.length = false →
+      (scanLayer cfg t fuel p lk le rk re max false acc).1.tuples =
+        lim max (acc.tuples ++ (contentFrom t (fuel + 1) p).filter (Jf p lk le rk re)) := by
+  intro fuel
+  induction fuel with
+  | zero =>
+    intro p lk le rk re acc hp hA hle hpre
+    exact layer_step hF 0 (fun _ _ f h => absurd h (by omega)) p lk le rk re acc hp hA hle hpre
+  | succ n ih =>
+    intro p lk le rk re acc hp hA hle hpre
+    refine layer_step hF (n + 1) ?_ p lk le rk re acc hp hA hle hpre
+    intro p' hA' f hf q alk ale ark are acc' hq hlen h0 hpre'
+    have : f = n := by omega
+    subst this
+    exact ih q alk ale ark are acc' hq (by omega) h0 hpre'
+where
+  layer_step {cfg : Cfg} {t : Tree} (hF : FCore (lay t)) {max : Nat} (fuel : Nat)
+      (IH : ∀ p, t.length ≤ fuel + p.length / 8 → SubOK cfg t fuel p max)
+      (p : List UInt8) (lk : Key) (le : EP) (rk : Key) (re : EP) (acc : Acc)
+      (hp : (lay t p).isSome) (hA : t.length ≤ fuel + p.length / 8) (hle : le = .inf → lk = [])
+      (hpre : full max acc.tuples.length = false) :
+      (scanLayer cfg t fuel p lk le rk re max false acc).1.tuples =
+        lim max (acc.tuples ++ (contentFrom t (fuel + 1) p).filter (Jf p lk le rk re)) := by
+    cases hL : findLayer t p with
+    | none => rw [lay_isSome, hL] at hp; cases hp
+    | some L =>
+      have c : LCtx t fuel p L := ⟨hF, hL, hA⟩
+      rw [scanLayer_some hL, contentFrom_succ hL, List.filter_flatMap]
+      rw [scanLeaves_tuples c (IH p hA) lk le rk re _ _ acc ⟨L.leaves.take _, (List.take_append_drop _ _).symm⟩ hpre]
+      congr 2
+      have hsplit : (layerEnts L.leaves).flatMap (Xe t fuel p lk le rk re) =
+          (layerEnts (L.leaves.take (route (descentKT lk false) L.leaves))).flatMap (Xe t fuel p lk le rk re) ++
+          (layerEnts (L.leaves.drop (route (descentKT lk false) L.leaves))).flatMap (Xe t fuel p lk le rk re) := by
+        rw [← List.flatMap_append, ← layerEnts_append, List.take_append_drop]
+      rw [flatMap_nil_of (start_skips c lk le rk re hle), List.nil_append] at hsplit
+      exact hsplit.symm
+
+/-! ### the fuel of `contentFrom` is irrelevant once it covers the depth -/
+
+theorem flatMap_congr' {α β : Type} {l : List α} {f g : α → List β} (h : ∀ x ∈ l, f x = g x) :
+    l.flatMap f = l.flatMap g := by
+  induction l with
+  | nil => rfl
+  | cons a l ih =>
+    rw [List.flatMap_cons, List.flatMap_cons, h a (by simp), ih (fun x hx => h x (by simp [hx]))]
+
+theorem contentFrom_fuel {t : Tree} (hF : FCore (lay t)) : ∀ (fuel : Nat) (p : List UInt8),
+    (lay t p).isSome → t.length + 1 ≤ fuel + p.length / 8 →
+    contentFrom t (fuel + 1) p = contentFrom t fuel p := by
+  intro fuel
+  induction fuel with
+  | zero =>
+    intro p hp hb
+    have := depth_bound hF hp
+    omega
+  | succ n ih =>
+    intro p hp hb
+    cases hL : findLayer t p with
+    | none => rw [lay_isSome, hL] at hp; cases hp
+    | some L =>
+      have hlay := lay_of_findLayer hL
+      have hc := hF.core _ _ hlay
+      rw [contentFrom_succ hL, contentFrom_succ hL]
+      apply flatMap_congr'
+      intro e he
+      obtain ⟨hw, hv⟩ := layerEnts_wf hc he
+      unfold entContent
+      cases hval : e.val with
+      | some v => rfl
+      | none =>
+        simp only
+        exact ih _ (hF.down _ _ hlay e he (hv.mp hval)) (by simp only [List.length_append, hw.1]; omega)
+
+/-! ### the public entry point -/
+
+theorem scan_unfold {t : Tree} {L : Layer} (hL : findLayer t [] = some L) (lk : Key) (le : EP) (rk : Key)
+    (re : EP) (max : Nat) (r2l : Bool) (ha : scanArgsOk lk le rk re max r2l = true) :
+    scan cfgFixed t lk le rk re max r2l =
+      if ((L.leaves.getD (route (descentKT (if le == .inf then [] else lk) r2l) L.leaves) emptyLeaf).deleted &&
+          L.leaves.length == 1) = true then
+        { status := .OK, nodes := [mkRef L (route (descentKT (if le == .inf then [] else lk) r2l) L.leaves)] }
+      else
+        { status := .OK,
+          tuples := (scanLayer cfgFixed t (t.length + 1) [] (if le == .inf then [] else lk) le rk re max r2l ⟨[], []⟩).1.tuples,
+          nodes := (scanLayer cfgFixed t (t.length + 1) [] (if le == .inf then [] else lk) le rk re max r2l ⟨[], []⟩).1.nodes } := by
+  unfold scan
+  rw [ha]
+  simp only [Bool.not_true, Bool.false_eq_true, if_false, hL]
+  have : (cfgFixed.fixD5 && le == EP.inf) = (le == EP.inf) := by simp [cfgFixed]
+  rw [this]
+
+theorem inLeft_inf_key (lk : Key) (le : EP) (k : Key) :
+    inLeft (if le == .inf then [] else lk) le k = inLeft lk le k := by
+  cases le <;> rfl
+
+theorem scan_status_ok (t : Tree) (lk : Key) (le : EP) (rk : Key) (re : EP) (max : Nat) (r2l : Bool)
+    (h : Inv t) (ha : scanArgsOk lk le rk re max r2l = true) :
+    (scan cfgFixed t lk le rk re max r2l).status = Status.OK := by
+  obtain ⟨_, hF, _⟩ := (inv_iff t).mp h
+  cases hL : findLayer t [] with
+  | none => have := hF.root; rw [lay_isSome, hL] at this; cases this
+  | some L =>
+    rw [scan_unfold hL lk le rk re max r2l ha]
+    generalize (if (le == EP.inf) = true then [] else lk) = lk0
+    split <;> rfl
+
+/-- a deleted single root border: the storage is empty -/
+theorem content_of_deleted_root {t : Tree} (h : Inv t) {L : Layer} (hL : findLayer t [] = some L) {i : Nat}
+    (hd : ((L.leaves.getD i emptyLeaf).deleted && L.leaves.length == 1) = true) : content t = [] := by
+  obtain ⟨_, hF, hE⟩ := (inv_iff t).mp h
+  simp only [Bool.and_eq_true, beq_iff_eq] at hd
+  obtain ⟨hd1, hd2⟩ := hd
+  have hlay := lay_of_findLayer hL
+  unfold content
+  rw [contentFrom_succ hL]
+  cases hlv : L.leaves with
+  | nil => rw [hlv] at hd2; cases hd2
+  | cons l ls =>
+    rw [hlv] at hd2 hd1
+    have hls : ls = [] := List.eq_nil_of_length_eq_zero (by simpa using hd2)
+    subst hls
+    have hi : ([l] : List Leaf).getD i emptyLeaf = l ∨ ([l] : List Leaf).getD i emptyLeaf = emptyLeaf := by
+      cases i with
+      | zero => left; rfl
+      | succ j => right; simp
+    rcases hi with hi | hi
+    · rw [hi] at hd1
+      have := (hE [] _ hlay l (by rw [hlv]; simp)).2 hd1
+      simp [layerEnts, this]
+    · rw [hi] at hd1; cases hd1
+
+theorem scan_spec_fwd (t : Tree) (lk : Key) (le : EP) (rk : Key) (re : EP) (max : Nat)
+    (h : Inv t) (ha : scanArgsOk lk le rk re max false = true) :
+    (scan cfgFixed t lk le rk re max false).tuples = scanSpec t lk le rk re max false := by
+  obtain ⟨_, hF, _⟩ := (inv_iff t).mp h
+  cases hL : findLayer t [] with
+  | none => have := hF.root; rw [lay_isSome, hL] at this; cases this
+  | some L =>
+    rw [scan_unfold hL lk le rk re max false ha]
+    generalize hlk0 : (if (le == EP.inf) = true then [] else lk) = lk0
+    split
+    · rename_i hd
+      have := content_of_deleted_root h hL hd
+      unfold scanSpec
+      rw [this]
+      simp
+    · simp only
+      have hpre : full max (⟨[], []⟩ : Acc).tuples.length = false := by
+        apply full_false_iff.mpr
+        simp only [List.length_nil]
+        omega
+      rw [scanLayer_tuples hF (t.length + 1) [] _ le rk re ⟨[], []⟩ hF.root (by simp)
+        (by intro e; rw [← hlk0, e]; rfl) hpre]
+      rw [contentFrom_fuel hF (t.length + 1) [] hF.root (by simp)]
+      unfold scanSpec content
+      simp only [List.nil_append, Bool.false_eq_true, if_false]
+      have hJ : Jf [] lk0 le rk re = fun kv => inInterval lk le rk re kv.1 := by
+        funext kv
+        unfold Jf
+        rw [inInterval_eq, List.length_nil, List.drop_zero, ← hlk0, inLeft_inf_key]
+      rw [hJ]
+      unfold lim
+      by_cases hm : max = 0
+      · simp [hm]
+      · have : (max == 0) = false := by simp [hm]
+        simp [hm, this]
 
 end Yak.Tree
